@@ -150,6 +150,33 @@ def check_objectives(ctx: Ctx, case: dict) -> None:
         require(gen_bp.rows_of(y) == rows,
                 lambda: f"evaluation modified the packing ({how})")
 
+    # the same values and bounds must come out when a result record is
+    # assembled for the packing (every generated instance carries the same
+    # name, and no cache is handed over)
+    if packs:
+        from moptipy.evaluation.end_results import EndResult
+        from moptipyapps.binpacking2d import packing_result as pres
+        y, _rows, k, want, how = packs[-1]
+        er = EndResult("algo", inst.name, "binCount", None, 1, k, 1, 0, 1,
+                       0, None, None, None)
+        rec = sut("from_packing_and_end_result",
+                  pres.from_packing_and_end_result, er, y)
+        require(dict(rec.objectives) == want, lambda: "result record holds "
+                f"the objective values {dict(rec.objectives)}, the packing "
+                f"({how}) has {want}")
+        ob = dict(rec.objective_bounds)
+        for name, (lb, ub) in bounds.items():
+            require(ob.get(name + ".lowerBound") == lb
+                    and ob.get(name + ".upperBound") == ub,
+                    lambda: f"result record holds bounds "
+                    f"{ob.get(name + '.lowerBound')}.."
+                    f"{ob.get(name + '.upperBound')} for {name}, the "
+                    f"objective declares {lb}..{ub}")
+        require(rec.bin_bounds.get("bins.lowerBound")
+                == inst.lower_bound_bins and rec.n_items == inst.n_items
+                and rec.bin_width == W and rec.bin_height == H,
+                "result record describes another instance")
+
     n_pairs = 0
     for a in range(len(packs)):
         for b in range(len(packs)):
